@@ -444,7 +444,7 @@ def gen_cases(rng, tier):
         g = Graph("fixed", launch)
         ec = edge_cover(g, rng)
         nm = near_misses(g, witness_ops())
-        n_rw = 400 if tier == "quick" else 6000
+        n_rw = 400 if tier == "quick" else 40000
         rw = [random_walk(g, rng, rng.randint(8, 70)) for _ in range(n_rw)]
         dc = []
         if tier == "thorough":
